@@ -45,6 +45,9 @@ func (as *accountStore) ByHeight(height uint64) (*nom.AccountBlock, error) {
 func (as *accountStore) MoreByHeight(height, count uint64) ([]*nom.AccountBlock, error) {
 	answer := make([]*nom.AccountBlock, 0)
 	for i := 0; i < int(count); i += 1 {
+		if height+uint64(i) < height {
+			break // heights do not wrap around 2^64
+		}
 		block, err := as.ByHeight(height + uint64(i))
 		if err != nil {
 			return nil, err
